@@ -88,16 +88,19 @@ def sync_gosum():
         pass
 
 
-def extract_facts(names):
+def extract_facts(names, repo=None):
     """Run the go/ast extractors; returns (status, detail). status: regenerated | unreadable | none."""
     if not names:
         return "none", ""
     status, detail = "regenerated", []
     sync_gosum()
+    env = goenv()
+    if repo:
+        env["VERIF_REPO"] = repo
     for n in names:
         gen = os.path.join(LEAN, "PlzVerif", "Generated", n.upper() if re.fullmatch(r"c\d+", n) else n)
         with Lock("go"):
-            rc, out = sh(["go", "run"] + modfile_args() + ["./extract/" + n.lower()], cwd=HARNESS, env=goenv(), timeout=600)
+            rc, out = sh(["go", "run"] + modfile_args() + ["./extract/" + n.lower()], cwd=HARNESS, env=env, timeout=600)
         if rc != 0:
             status = "unreadable"
             detail.append(f"{n}: rc={rc} {out.strip()[-400:]}")
@@ -511,6 +514,8 @@ def run_check(spec, tier, seed, replay=None):
           "violations": len(violations)}
     write_evidence(pid, ev)
     shutil.rmtree(scratch, ignore_errors=True)
+    if ALT:   # dry-run against a scratch copy: put the shared Generated/ files back to what /repo says
+        extract_facts(spec.get("extract", []), repo="/repo")
     print(f"{pid} {tier}: obligations {pr['discharged']}/{pr['obligations']} facts={facts_status} "
           f"cases={evals} nontrivial={dn} disagreements={len(disagreements)} oracle_fail={len(oracle_fails)} "
           f"(known classes {sorted(seen_known)}) wall={ev['wall_s']}s")
